@@ -55,8 +55,24 @@ def near_skel(n):
             return {"cls": "union", "name": n.query_name, "terms": list((n.terms or {}).keys()),
                     "l": near_skel(n.sub_sql1.near_sql), "r": near_skel(n.sub_sql2.near_sql),
                     "cols": list(n.sub_sql1.columns)}
+        ln, rn = n.sub_sql1.public_name_quoted, n.sub_sql2.public_name_quoted
+
+        def shape(k, v):
+            """which side leads a coalesce / qualifies a pass-through column (same strings as joinTermShape)"""
+            if (v is None) or (v == k):
+                return "pass"
+            t = str(v).strip()
+            il, ir = t.find(str(ln) + "."), t.find(str(rn) + ".")
+            if t.upper().startswith("COALESCE(") and il >= 0 and ir >= 0:
+                return "coalesce:l:r" if il < ir else "coalesce:r:l"
+            if t.startswith(str(ln) + "."):
+                return "qual:l"
+            if t.startswith(str(rn) + "."):
+                return "qual:r"
+            return "other"
+
         return {"cls": "join", "name": n.query_name,
-                "terms": [[k, (v is None) or (v == k)] for k, v in (n.terms or {}).items()],
+                "terms": [[k, (v is None) or (v == k), shape(k, v)] for k, v in (n.terms or {}).items()],
                 "l": near_skel(n.sub_sql1.near_sql), "l_cols": list(n.sub_sql1.columns), "l_name": n.sub_sql1.public_name,
                 "r": near_skel(n.sub_sql2.near_sql), "r_cols": list(n.sub_sql2.columns), "r_name": n.sub_sql2.public_name,
                 "joiner": n.joiner}
